@@ -11,12 +11,14 @@ Open Scope string_scope.
 Open Scope list_scope.
 Open Scope nat_scope.
 
-(* a field value: None, a string (also: a str-Enum member such as ParameterKind, dumped as its value), a bool, a list,
+(* a field value: None, a string (also: a str-Enum member such as ParameterKind, dumped as its value), a bool, an int
+   (ExprFormatted.conversion), a list,
    or an expression given by its class name and its field values in table order *)
 Inductive fval :=
 | FNone
 | FStr (s : string)
 | FBool (b : bool)
+| FInt (z : Z)
 | FList (l : list fval)
 | FExpr (cls : string) (vals : list fval).
 
@@ -28,6 +30,7 @@ Fixpoint enc_fval (v : fval) : json :=
   | FNone => JNull
   | FStr s => JStr s
   | FBool b => JBool b
+  | FInt z => JInt z
   | FList l => JArr (map enc_fval l)
   | FExpr cls vals => JObj (combine (field_names cls) (map enc_fval vals) ++ [("cls", JStr cls)])
   end.
@@ -65,7 +68,7 @@ Fixpoint fval_ok (v : fval) : bool :=
 
 Definition expr_nt : string := "expression".
 
-Definition sh_scalar : shape := ShUnion [ShNull; ShStr; ShBool; ShRef expr_nt].
+Definition sh_scalar : shape := ShUnion [ShNull; ShStr; ShBool; ShRef expr_nt; ShInt].
 Definition sh_field (k : fkind) : shape := match k with FScalar => sh_scalar | FSeq => ShArr sh_scalar end.
 
 Definition sh_expr_class (row : string * list (string * fkind)) : shape :=
@@ -87,6 +90,7 @@ Fixpoint fval_of (s : sexp) : option fval :=
   | SList [SStr "n"] => Some FNone
   | SList [SStr "s"; SStr x] => Some (FStr x)
   | SList [SStr "b"; SInt z] => Some (FBool (negb (z =? 0)%Z))
+  | SList [SStr "i"; SInt z] => Some (FInt z)
   | SList [SStr "l"; SList items] =>
       option_map FList
         ((fix go (l : list sexp) : option (list fval) :=
